@@ -442,7 +442,8 @@ end C17.Reg
 /-! ## T-tie: `_expire_cache` **as translated from `datastore/cache_manager.py` on every run**
 (`translate/gen_cache.py`, one definition per mode; `scan_cache`, `_remove_from_cache` and `_sort_cache` are the
 hand-modelled effects of `Model/Cache.lean`).  The bound and bookkeeping theorems above are about `Cache.expire`; the
-theorems below identify the source's `files`, `size` and `age` branches with it. -/
+theorems below identify the source's `files`, `datasets`, `size` and `age` branches with it (the dict of lists of the
+`datasets` branch is `Py.Groups`). -/
 namespace C17.Translated
 open Cache
 
@@ -555,6 +556,124 @@ theorem expire_size_eq (thr now : Int) (h0 : 0 ≤ thr) (disk : List Entry) (r :
   rw [hgen, key]
   simp only [expire]
   by_cases h : ((scan disk r).size : Int) > thr <;> simp [h]
+
+section Datasets
+open Py
+theorem groupKeys_append (g : Groups) (k v : Nat) :
+    groupKeys (groupAppend g k v) = if k ∈ groupKeys g then groupKeys g else groupKeys g ++ [k] := by
+  induction g with
+  | nil => simp [groupAppend, groupKeys]
+  | cons x rest ih =>
+    obtain ⟨k', vs⟩ := x
+    simp only [groupAppend]
+    by_cases h : k' = k
+    · subst h; simp [groupKeys]
+    · simp only [h, if_false]
+      simp only [groupKeys, List.map_cons, List.mem_cons] at ih ⊢
+      have hk : ¬ k = k' := fun e => h e.symm
+      by_cases hm : k ∈ List.map (fun x => x.1) rest
+      · simp [hm, hk] at ih ⊢; exact ih
+      · simp [hm, hk] at ih ⊢; exact ih
+
+theorem groupGet_append (g : Groups) (k v d : Nat) :
+    groupGet (groupAppend g k v) d = if d = k then groupGet g k ++ [v] else groupGet g d := by
+  induction g with
+  | nil => by_cases h : d = k <;> simp [groupAppend, groupGet, h] <;> (intro e; exact absurd e.symm h)
+  | cons x rest ih =>
+    obtain ⟨k', vs⟩ := x
+    simp only [groupAppend]
+    by_cases h : k' = k
+    · subst h
+      by_cases hd : d = k'
+      · subst hd; simp [groupGet]
+      · have hd' : ¬ k' = d := fun e => hd e.symm
+        simp [groupGet, hd, hd']
+    · simp only [h, if_false, groupGet]
+      by_cases hd : k' = d
+      · subst hd; simp [h]
+      · simp only [hd, if_false]; exact ih
+
+theorem filter_true' {α : Type} (l : List α) : l.filter (fun _ => true) = l := by
+  induction l with
+  | nil => rfl
+  | cons a as ih => simp [List.filter_cons, ih]
+
+def grp (g : Groups) (es : List Entry) : Groups := es.foldl (fun g e => groupAppend g e.ref e.key) g
+
+theorem grp_keys : ∀ (es : List Entry) (g : Groups),
+    groupKeys (grp g es) = groupKeys g ++ (refsInOrder es).filter (fun x => !(groupKeys g).contains x) := by
+  intro es
+  induction es with
+  | nil => intro g; simp [grp, refsInOrder]
+  | cons e es ih =>
+    intro g
+    have hstep : grp g (e :: es) = grp (groupAppend g e.ref e.key) es := rfl
+    rw [hstep, ih, groupKeys_append]
+    simp only [refsInOrder]
+    by_cases hm : e.ref ∈ groupKeys g
+    · simp only [hm, if_true, List.filter_cons, List.contains_eq_mem, decide_true, Bool.not_true, Bool.false_eq_true, if_false,
+        List.filter_filter]
+      congr 1
+      apply List.filter_congr
+      intro x _
+      by_cases hx : x ∈ groupKeys g
+      · simp [hx]
+      · have : x ≠ e.ref := fun h => hx (h ▸ hm)
+        simp [hx, this]
+    · simp only [hm, if_false, List.filter_cons, List.contains_eq_mem, decide_false, Bool.not_false, if_true, List.filter_filter,
+        List.append_assoc, List.singleton_append]
+      congr 2
+      apply List.filter_congr
+      intro x _
+      by_cases hx : x = e.ref
+      · subst hx; simp
+      · simp [hx]
+
+theorem grp_get : ∀ (es : List Entry) (g : Groups) (d : Nat),
+    groupGet (grp g es) d = groupGet g d ++ (es.filter (fun e => e.ref == d)).map (·.key) := by
+  intro es
+  induction es with
+  | nil => intro g d; simp [grp]
+  | cons e es ih =>
+    intro g d
+    have hstep : grp g (e :: es) = grp (groupAppend g e.ref e.key) es := rfl
+    rw [hstep, ih, groupGet_append]
+    by_cases hd : d = e.ref
+    · subst hd; simp
+    · have : (e.ref == d) = false := by simp; exact fun h => hd h.symm
+      simp [hd, this]
+
+/-- **`datasets` mode as written in the source** (group the keys by dataset in time order, drop the oldest datasets) is the
+model's. -/
+theorem expire_datasets_eq (thr now : Int) (disk : List Entry) (r : Reg) :
+    Gen.CachePy.expire_datasets thr now disk r = expire .datasets thr now disk r := by
+  have hgen : Gen.CachePy.expire_datasets thr now disk r =
+      (let g := grp [] (sortCache (scan disk r).entries)
+       if decide ((g.length : Int) - thr > 0) = true then
+         removeKeys disk (scan disk r) (((groupKeys g).take (Int.toNat ((g.length : Int) - thr))).flatMap (fun d => groupGet g d))
+       else (disk, scan disk r)) := rfl
+  rw [hgen]
+  simp only [expire]
+  have hk := grp_keys (sortCache (scan disk r).entries) []
+  simp only [groupKeys, List.map_nil, List.nil_append, List.contains_nil, Bool.not_false, filter_true'] at hk
+  have hlen : (grp [] (sortCache (scan disk r).entries)).length = (refsInOrder (sortCache (scan disk r).entries)).length := by
+    rw [← hk, List.length_map]
+  have hget : ∀ d, groupGet (grp [] (sortCache (scan disk r).entries)) d =
+      ((sortCache (scan disk r).entries).filter (fun e => e.ref == d)).map (·.key) := by
+    intro d; rw [grp_get]; simp [groupGet]
+  simp only [hlen]
+  by_cases h : ((refsInOrder (sortCache (scan disk r).entries)).length : Int) - thr > 0
+  · simp only [h, decide_true, if_true]
+    congr 1
+    have : groupKeys (grp [] (sortCache (scan disk r).entries)) = refsInOrder (sortCache (scan disk r).entries) := hk
+    rw [this, List.map_flatMap]
+    congr 1
+    funext d
+    exact hget d
+  · have h' : ¬ thr < ((refsInOrder (sortCache (scan disk r).entries)).length : Int) := by omega
+    simp [h, h']
+
+end Datasets
 
 /-- non-vacuity: three files of 10 bytes, threshold 15 bytes: the two oldest go -/
 example :
